@@ -468,9 +468,11 @@ fn exec(j: &Job, rep: &mut Report) -> Option<(Value, String)> {
                 continue;
             }
             let outp = format!("{cmd}-{ti}.mla");
+            // the second target receives the archive on standard output (`-o -`), written to the file by the harness
+            let to_stdout = ti == 1;
             let mut a = vec![s(cmd)];
             a.extend(t.args().into_iter().map(s));
-            a.extend([s("-i"), s("a.mla"), s("-o"), outp.clone()]);
+            a.extend([s("-i"), s("a.mla"), s("-o"), if to_stdout { s("-") } else { outp.clone() }]);
             if let Some(k) = pk {
                 a.extend([s("-k"), s(k)]);
             }
@@ -483,6 +485,9 @@ fn exec(j: &Job, rep: &mut Report) -> Option<(Value, String)> {
             let o = cx.run(&a);
             if !o.status.success() {
                 return fail(&format!("{cmd}_fails"), format!("mlar {a:?}: {:?} {}", o.status.code(), tail(&o.stderr)));
+            }
+            if to_stdout {
+                let _ = std::fs::write(cx.dir.join(&outp), &o.stdout);
             }
             let k2 = if t.encrypted() { Some(privs[1].as_str()) } else { None };
             if let Some((k, d)) = verify(&mut cx, &outp, k2, &files, &format!("{cmd}{ti}")) {
@@ -571,9 +576,9 @@ pub fn jobs(thorough: bool) -> Vec<Job> {
     let mut n = 0usize;
     for tree in 0..7 {
         for lay in Lay::ALL {
-            let levels: Vec<u32> = if !lay.compressed() { vec![5] } else if thorough { vec![0, 5, 11] } else { vec![[0u32, 5, 11][n % 3]] };
+            let levels: Vec<u32> = if !lay.compressed() { vec![5] } else if thorough { vec![0, 5, 11] } else { vec![[0u32, 5, 11, 1, 9][(n + tree) % 5]] };
             for level in levels {
-                let keysets: Vec<(usize, usize)> = if !lay.encrypted() { vec![(1, 0)] } else if thorough { vec![(1, 0), (2, 0), (2, 1)] } else { vec![[(1, 0), (2, 0), (2, 1)][n % 3]] };
+                let keysets: Vec<(usize, usize)> = if !lay.encrypted() { vec![(1, 0)] } else if thorough { vec![(1, 0), (2, 0), (2, 1)] } else { vec![[(1, 0), (2, 0), (2, 1)][(n / 2 + tree) % 3]] };
                 for (nkeys, read_with) in keysets {
                     n += 1;
                     v.push(Job { tree, lay, level, nkeys, read_with, scale: "s" });
@@ -613,7 +618,7 @@ pub fn run(started: Instant) -> i32 {
         rep,
         Meta {
             level: "exploration",
-            rule: "7 generated file trees (empty files, nested directories, unicode and spaces, sizes around the chunk and block sizes, path lengths 99/100/101/156/260 bytes) x layer options {none, compress, encrypt, both (options in either order), default} x levels x key sets (1 or 2 recipients, read with either; with 2 recipients the readers get two candidate keys, a non-recipient first), with the mlar binary built from the working tree (scaled constants; plus trees with files of 128 KiB+-1 and 4 MiB+-1 on the production-constant binary). Pipeline per job: keygen; create (file list or directory recursion; also to stdout and with the file list on stdin); then info and info -v (format version, layer flags, recipients, compression rate against an independent decode), list, list -vv (humansize + SHA-256), cat of every file and of all files with --glob '*' (sorted order), extract (linear, --glob '*' and into the output directory named through a symbolic link and '..', no extra files; then again into the same directory whose files were made longer), extract of one name, to-tar (file and stdout; entries parsed with the tar crate); extract into the default directory; repair with --allow-unauthenticated-data; convert to each other layer/key choice and repair of the intact archive, each followed by the same readers; create|convert|repair chains; negative runs (wrong key, missing key, key for an unencrypted archive) for list/extract/cat/to-tar/convert(/repair) must exit non-zero and leave no output content. transitions = mlar invocations".to_string(),
+            rule: "7 generated file trees (empty files, nested directories, unicode and spaces, sizes around the chunk and block sizes, path lengths 99/100/101/156/260 bytes) x layer options {none, compress, encrypt, both (options in either order), default} x levels x key sets (1 or 2 recipients, read with either; with 2 recipients the readers get two candidate keys, a non-recipient first), with the mlar binary built from the working tree (scaled constants; plus trees with files of 128 KiB+-1 and 4 MiB+-1 on the production-constant binary). Pipeline per job: keygen; create (file list or directory recursion; also to stdout and with the file list on stdin); then info and info -v (format version, layer flags, recipients, compression rate against an independent decode), list, list -vv (humansize + SHA-256), cat of every file and of all files with --glob '*' (sorted order), extract (linear, --glob '*' and into the output directory named through a symbolic link and '..', no extra files; then again into the same directory whose files were made longer), extract of one name, to-tar (file and stdout; entries parsed with the tar crate); extract into the default directory; repair with --allow-unauthenticated-data; convert to each other layer/key choice and repair of the intact archive (one target of each received on standard output), each followed by the same readers; create|convert|repair chains; negative runs (wrong key, missing key, key for an unencrypted archive) for list/extract/cat/to-tar/convert(/repair) must exit non-zero and leave no output content. transitions = mlar invocations".to_string(),
             exhaustive: true,
             bounds: json!({"jobs": js.len()}),
             assumptions: vec!["human-readable sizes are formatted with the same humansize crate as the tool".to_string()],
